@@ -417,3 +417,14 @@ func VerifRequestEqual(a, b *Request) bool {
 	}
 	return eq
 }
+
+// ---- C06 wiring harness (root package)
+
+// VerifC06Rule builds (and on replay re-parses) a symbolic rule of the verdict harnesses.
+func VerifC06Rule(p string) *NetworkRule { return verifRealizeC06(verifC06Rule(p)) }
+
+// VerifRefClass is the order-free documented verdict class (0 none, 1 block, 2 allow).
+func VerifRefClass(rs, src []*NetworkRule) int { return verifRefClass(rs, src) }
+
+// VerifVerdict: 0 none, 1 block, 2 allow.
+func VerifVerdict(r *NetworkRule) int { return verifVerdict(r) }
